@@ -82,11 +82,15 @@ impl crate::inflight::SizedRequest for Decoded {
     }
 
     fn is_publish(&self) -> bool {
-        matches!(self, Decoded::Publish(..))
+        matches!(self, Decoded::Publish(pkt, payload, _) if pkt.payload_size != payload.len() as u32)
     }
 
     fn is_chunk(&self) -> bool {
         matches!(self, Decoded::PayloadChunk(..))
+    }
+
+    fn is_last_chunk(&self) -> bool {
+        matches!(self, Decoded::PayloadChunk(_, true))
     }
 }
 
